@@ -1,22 +1,68 @@
-(* Catching up across a fork (property C11), part 6: the premise "the by-height window reaches the frontier" of
-   [sync_fork_catches_up] in terms of the two chains.
+(* Catching up across a fork (property C11), part 6: every reachable node holds a block at every height up to the highest
+   height recorded for its tip or an alternative tip.
 
-   For a node that satisfies the chain invariants (every reachable state), while it accepts the blocks of the peer's
-   branch one after another its tip is either still its own old tip or the last block accepted ([nd_top]); hence the
-   premise holds as soon as
+   [held_height n] (Model/Sync.v) = max (own height, heights of the alternative tips): what Synchronize compares the last
+   requested height with when the requested blocks have not extended the main chain.  [MInv]: every stored block's
+   height is at most [held_height].  It holds at genesis and is preserved by every accepted block ([add_block_cover]:
+   the new block's height is covered, and [held_height] never decreases - a tip entry that disappears is replaced by a
+   higher one or moves into / out of the tip fields at a reorganisation).  Hence while our node accepts the peer's
+   branch it holds a block at the height just below the frontier, which is the premise [Hheld] of Proofs/Sync2Refine.v:
+   [sync_fork_catches_up_chains] has no premise about the request window any more.
 
-     REACH'   if the peer's chain has a block at height (our height + PARALLEL_BLOCKS_DOWNLOAD + 1), that block is
-              heavier than our tip
-
-   (the node then has reorganised to the peer's branch before the frontier leaves the window).  When the peer's chain
-   is at most PARALLEL_BLOCKS_DOWNLOAD + 1 blocks higher than ours - in particular when it is not higher - there is
-   nothing to check.  Livelock 1 of Proofs/Sync2Stuck.v is exactly a pair of chains on which REACH' fails:
-   our height 14, the peer's block of height 65 has cumulative difficulty 135 <= 145. *)
+   History: before the repair of Synchronize (KNOWN_FINDINGS C11-long-light-fork) the by-height request restarted at
+   the node's OWN height whenever the requested blocks had not moved it, and this file derived the then necessary
+   premise "the peer's block at height (our height + PARALLEL_BLOCKS_DOWNLOAD + 1) is heavier than our tip". *)
 From Coq Require Import Arith Bool Lia.
 From Virel Require Import Lib.Config Lib.U64 Lib.AMap Model.Ledger Model.Node Model.Sync Spec.Chain
   Proofs.AMapLemmas Proofs.Conservation Proofs.NodeBasics Proofs.ForkChoice Proofs.Restart Proofs.ChainInv Proofs.ChainRun
   Proofs.ChainHeights Proofs.Sync Proofs.Sync2 Proofs.Sync2Refine Proofs.Sync2Main.
 Open Scope N_scope.
+
+(* ------------------------------------------------------------------ association lists *)
+Lemma in_ndel_other {V} (m : list (N * V)) k0 k v : In (k, v) m -> k <> k0 -> In (k, v) (ndel m k0).
+Proof.
+  unfold ndel. induction m as [|[k1 v1] m IH]; cbn; [intros []|]. intros [E|Hin] Hne.
+  - injection E as -> ->. destruct (N.eqb_spec k0 k); [congruence|left; reflexivity].
+  - destruct (k0 =? k1); [exact Hin|right; apply IH; assumption].
+Qed.
+
+Lemma in_nset_other {V} (m : list (N * V)) k0 v0 k v : In (k, v) m -> k <> k0 -> In (k, v) (nset m k0 v0).
+Proof.
+  unfold nset. induction m as [|[k1 v1] m IH]; cbn; [intros []|]. intros [E|Hin] Hne.
+  - injection E as -> ->. destruct (N.eqb_spec k0 k); [congruence|left; reflexivity].
+  - destruct (k0 =? k1); [right; exact Hin|right; apply IH; assumption].
+Qed.
+
+Lemma in_nset_same {V} (m : list (N * V)) k v : In (k, v) (nset m k v).
+Proof.
+  unfold nset. induction m as [|[k1 v1] m IH]; cbn; [left; reflexivity|].
+  destruct (k =? k1); [left; reflexivity|right; exact IH].
+Qed.
+
+(* ------------------------------------------------------------------ the highest height held *)
+Lemma hmax_spec (l : list (N * tip)) : forall a x,
+  x <= fold_left (fun acc (kv : N * tip) => N.max acc (t_height (snd kv))) l a <->
+  x <= a \/ exists k tp, In (k, tp) l /\ x <= t_height tp.
+Proof.
+  induction l as [|[k0 tp0] l IH]; intros a x; cbn [fold_left snd].
+  - split; [intros H; left; exact H|intros [H|(k & tp & [] & _)]; exact H].
+  - rewrite IH. split.
+    + intros [H|(k & tp & Hin & Hle)].
+      * destruct (N.le_gt_cases x a); [left; assumption|right; exists k0, tp0; split; [left; reflexivity|lia]].
+      * right. exists k, tp. split; [right; exact Hin|exact Hle].
+    + intros [H|(k & tp & [E|Hin] & Hle)].
+      * left. lia.
+      * injection E as -> ->. left. lia.
+      * right. exists k, tp. split; assumption.
+Qed.
+
+(* [x] is at most the node's own height or the height of one of its alternative tips *)
+Definition Cover (n : node) (x : N) : Prop := x <= top_h n \/ exists k tp, In (k, tp) (tips n) /\ x <= t_height tp.
+
+Lemma held_cover n x : x <= held_height n <-> Cover n x.
+Proof. unfold held_height, Cover. apply hmax_spec. Qed.
+
+Definition MInv (n : node) : Prop := forall h b, get_block n h = Some b -> b_height b <= held_height n.
 
 Section Reach.
 Variable cfg : config.
@@ -24,40 +70,92 @@ Variable genesis_addr team_key gh : N.
 Notation add_block' := (add_block cfg genesis_addr).
 Notation apply_ext' := (apply_ext cfg genesis_addr).
 Notation acc_chain' := (acc_chain cfg genesis_addr).
-Notation pbd := (parallel_blocks cfg).
 
 Definition NInv (n : node) : Prop := CInv gh n /\ FInv n /\ HInv n.
 
-(* where the tip is after one accepted block *)
-Lemma add_block_top n b n' amb : NInv n -> N.of_nat (length (blocks n)) < two64 -> add_block' n b = Ok (n', amb) ->
-  ((top n' = top n /\ top_h n' = top_h n) \/ (top n' = b_hash b /\ top_h n' = b_height b)) /\
-  (prev_hash b = top n -> top n' = b_hash b /\ top_h n' = b_height b).
+(* an accepted block: its height is covered afterwards, and whatever was covered stays covered *)
+Lemma add_block_cover n b n' amb : NInv n -> N.of_nat (length (blocks n)) < two64 -> add_block' n b = Ok (n', amb) ->
+  Cover n' (b_height b) /\ (forall x, Cover n x -> Cover n' x).
 Proof.
-  intros ((HB & HT) & (Hts & Htips & Hmax) & HH) Hlen H.
-  split; [|intros Hp; destruct (add_block_main cfg genesis_addr _ _ _ _ H Hp) as (A1 & A2 & _); split; assumption].
+  intros ((HB & HT) & (Hts & Htips & Hmax) & (Hh2 & Hh3)) Hlen H.
   unfold add_block in H. guard_inv H. opt_inv H. rename x into prev. bind_inv H. destruct a.
   assert (Hnew : nget (blocks n) (b_hash b) = None).
   { unfold get_block in G. destruct (nget (blocks n) (b_hash b)); [discriminate|reflexivity]. }
-  unfold get_block in E.
+  unfold get_block in E. unfold tips_heights, get_block in *.
   pose proof (check_block_height _ _ _ _ E0) as Hh.
   assert (Hh' : b_height b = b_height prev + 1).
   { destruct HB as (_ & _ & _ & Hb). pose proof (Hb _ _ E). rewrite wadd_small in Hh; lia. }
   pose proof (BInv_insert gh _ _ _ HB Hnew E Hh') as HB1.
+  assert (Hkeep : forall h x, nget (blocks n) h = Some x -> nget (nset (blocks n) (b_hash b) b) h = Some x)
+    by (intros h x; apply nget_nset_keep; exact Hnew).
   destruct (N.eqb_spec (prev_hash b) (top n)) as [Emain|Ealt].
-  - bind_inv H. injection H as <- _. unfold add_mainchain_block in E1. bind_inv E1. injection E1 as <-.
-    apply apply_block_node_eq in E2. destruct E2 as (l & ->). right. split; reflexivity.
-  - unfold add_altchain_block in H.
-    apply (check_reorgs_struct cfg genesis_addr gh) in H; cbn [blocks topo top top_h top_cd tips set_blocks set_tips] in *.
-    + destruct H as (_ & _ & [->|(k & alt & Hin & Hlt & Etop & Eh & _)]).
-      * left. split; reflexivity.
-      * apply alt_tips_cases in Hin. destruct Hin as [(_ & ->)|Hin].
-        -- right. split; assumption.
-        -- exfalso. destruct (Htips k alt Hin) as (tb & Htb & Hcd). pose proof (Hmax _ _ Htb). lia.
+  - (* extension of the main chain: the own height grows by one, the tips stay *)
+    bind_inv H. injection H as <- _. unfold add_mainchain_block in E1. bind_inv E1. injection E1 as <-.
+    apply apply_block_node_eq in E2. destruct E2 as (l & ->).
+    rewrite Emain in E. pose proof (Hh2 _ E) as Hth.
+    unfold Cover. cbn [top_h tips set_topo set_blocks set_top set_ldg]. split; [left; lia|].
+    intros x [Hx|Hx]; [left; lia|right; exact Hx].
+  - (* alternative chain *)
+    unfold add_altchain_block in H.
+    set (newtip := mktip (b_hash b) (b_height b) (b_cd b)) in *.
+    set (tips' := match nget (tips n) (prev_hash b) with Some t => _ | None => _ end) in H.
+    set (n1 := set_blocks (set_tips n tips') (nset (blocks n) (b_hash b) b)) in H.
+    (* the new block's own entry *)
+    assert (Ha : In (b_hash b, newtip) tips').
+    { unfold tips'. destruct (nget (tips n) (prev_hash b)) as [t0|]; [destruct (t_hash t0 =? prev_hash b)|]; apply in_nset_same. }
+    (* an old entry stays, or it was the parent's and is lower than the new one *)
+    assert (Hb : forall k tp, In (k, tp) (tips n) -> In (k, tp) tips' \/ t_height tp < b_height b).
+    { intros k tp Hin. destruct (Hh3 k tp Hin) as (Ek & tb & Htb & Htbh).
+      assert (Hkb : k <> b_hash b) by (intros ->; rewrite <- Ek in Htb; congruence).
+      unfold tips'. destruct (nget (tips n) (prev_hash b)) as [t0|]; [destruct (t_hash t0 =? prev_hash b)|].
+      - destruct (N.eq_dec k (prev_hash b)) as [Ekp|Nkp].
+        + right. rewrite <- Ek, Ekp, E in Htb. injection Htb as <-. lia.
+        + left. apply in_nset_other; [apply in_ndel_other; assumption|exact Hkb].
+      - left. apply in_nset_other; assumption.
+      - left. apply in_nset_other; assumption. }
+    assert (Htips' : forall k tp, In (k, tp) tips' ->
+              k = t_hash tp /\ exists tb, nget (nset (blocks n) (b_hash b) b) (t_hash tp) = Some tb /\ b_height tb = t_height tp).
+    { intros k tp Hin. apply alt_tips_cases in Hin. destruct Hin as [(-> & ->)|Hin]; cbn [t_hash t_height].
+      - split; [reflexivity|]. exists b. split; [apply nget_nset_same|reflexivity].
+      - destruct (Hh3 k tp Hin) as (Ek & tb & Htb & Htbh).
+        split; [exact Ek|]. exists tb. split; [apply Hkeep; exact Htb|exact Htbh]. }
+    assert (Hc1 : Cover n1 (b_height b) /\ (forall x, Cover n x -> Cover n1 x)).
+    { unfold Cover, n1. cbn [top_h tips set_blocks set_tips]. split.
+      - right. exists (b_hash b), newtip. split; [exact Ha|cbn; lia].
+      - intros x [Hx|(k & tp & Hin & Hx)]; [left; exact Hx|]. right.
+        destruct (Hb k tp Hin) as [Hin'|Hlt]; [exists k, tp; split; assumption|].
+        exists (b_hash b), newtip. split; [exact Ha|cbn; lia]. }
+    apply (check_reorgs_struct cfg genesis_addr gh) in H; cbn [blocks topo top top_h top_cd tips set_blocks set_tips n1] in *.
+    + destruct H as (_ & _ & [->|(k & alt & Hin & Hlt & Etop & Eh & _ & Etips)]); [exact Hc1|].
+      (* reorganisation: the chosen tip entry becomes the tip fields, the old tip fields become a tip entry *)
+      destruct Hts as (t0 & Ht0 & _). unfold get_block in Ht0. pose proof (Hh2 _ Ht0) as Ht0h.
+      assert (Hmove : forall x, Cover n1 x -> Cover n' x).
+      { unfold Cover. rewrite Eh, Etips. cbn [top_h tips n1 set_blocks set_tips].
+        intros x [Hx|(k1 & tp & Hin1 & Hx)].
+        - right. exists (top n), (mktip (top n) (top_h n) (top_cd n)). split; [apply in_nset_same|cbn; exact Hx].
+        - destruct (Htips' k1 tp Hin1) as (Ek1 & tb1 & Htb1 & Hh1). destruct (Htips' k alt Hin) as (Ek & tb & Htb & Hhb).
+          destruct (N.eq_dec k1 (t_hash alt)) as [E1|N1].
+          + left. rewrite <- Ek1, E1, Htb in Htb1. injection Htb1 as <-. lia.
+          + right. destruct (N.eq_dec k1 (top n)) as [E2|N2].
+            * exists (top n), (mktip (top n) (top_h n) (top_cd n)). split; [apply in_nset_same|].
+              rewrite <- Ek1, E2, (Hkeep _ _ Ht0) in Htb1. injection Htb1 as <-. cbn. lia.
+            * exists k1, tp. split; [apply in_nset_other; [apply in_ndel_other; assumption|exact N2]|exact Hx]. }
+      destruct Hc1 as (C1 & C2). split; [apply Hmove; exact C1|intros x Hx; apply Hmove, C2; exact Hx].
     + exact HB1.
     + apply TInv_insert_block; assumption.
     + intros k tp Hin Hlt. apply alt_tips_cases in Hin. destruct Hin as [(_ & ->)|Hin].
       * cbn [t_hash]. intros Egh. destruct HB as (_ & (g & Hg & _) & _). rewrite Egh in Hnew. congruence.
       * exfalso. destruct (Htips k tp Hin) as (tb & Htb & Hcd). pose proof (Hmax _ _ Htb). lia.
+Qed.
+
+Lemma add_block_MInv n b n' amb : NInv n -> MInv n -> N.of_nat (length (blocks n)) < two64 -> add_block' n b = Ok (n', amb) ->
+  MInv n' /\ b_height b <= held_height n'.
+Proof.
+  intros HN HM Hlen H. destruct (add_block_cover n b n' amb HN Hlen H) as (C1 & C2).
+  destruct (add_block_store _ _ _ _ _ _ H) as (_ & Hb).
+  split; [|apply held_cover; exact C1].
+  intros h x Hx. apply held_cover. unfold get_block in Hx. rewrite Hb, nget_nset in Hx.
+  destruct (h =? b_hash b); [injection Hx as <-; exact C1|]. apply C2. apply held_cover. apply (HM h x Hx).
 Qed.
 
 Lemma add_block_NInv n b n' amb : NInv n -> N.of_nat (length (blocks n)) < two64 -> add_block' n b = Ok (n', amb) ->
@@ -70,60 +168,57 @@ Proof.
   - eapply add_block_len; eassumption.
 Qed.
 
-Lemma apply_ext_NInv : forall l n, NInv n -> N.of_nat (length (blocks n) + length l) <= two64 -> acc_chain' n l ->
-  NInv (apply_ext' n l) /\ (length (blocks (apply_ext' n l)) <= length (blocks n) + length l)%nat.
+Lemma apply_ext_MInv : forall l n, NInv n -> MInv n -> N.of_nat (length (blocks n) + length l) <= two64 -> acc_chain' n l ->
+  NInv (apply_ext' n l) /\ MInv (apply_ext' n l).
 Proof.
-  induction l as [|b r IH]; intros n HN Hlen Hacc; [split; [exact HN|cbn; lia]|].
+  induction l as [|b r IH]; intros n HN HM Hlen Hacc; [split; assumption|].
   destruct Hacc as (n1 & amb & Ha & Hr). cbn [apply_ext]. rewrite Ha. cbn [length] in Hlen.
   destruct (add_block_NInv n b n1 amb HN ltac:(lia) Ha) as (HN1 & Hl1).
-  destruct (IH n1 HN1 ltac:(lia) Hr) as (HN2 & Hl2). split; [exact HN2|cbn [length]; lia].
+  destruct (add_block_MInv n b n1 amb HN HM ltac:(lia) Ha) as (HM1 & _).
+  apply (IH n1 HN1 HM1); [lia|exact Hr].
 Qed.
 
-Variable n0 : node.
-Variable theirs : list block.
-Hypothesis HN0 : NInv n0.
-Hypothesis Hlen0 : N.of_nat (length (blocks n0) + length theirs) <= two64.
-Hypothesis Hacc : acc_chain' n0 theirs.
-(* the blocks of the branch are linked *)
-Hypothesis Hlinked : forall i b c, nth_error theirs i = Some b -> nth_error theirs (S i) = Some c -> prev_hash c = b_hash b.
-
-Notation ndj := (fun j => apply_ext' n0 (firstn j theirs)).
-
-Lemma ndj_acc j : acc_chain' n0 (firstn j theirs).
-Proof. pose proof Hacc as H. rewrite <- (firstn_skipn j theirs) in H. apply acc_chain_app in H. apply H. Qed.
-
-Lemma ndj_NInv j : NInv (ndj j) /\ (length (blocks (ndj j)) <= length (blocks n0) + j)%nat /\
-  N.of_nat (length (blocks n0) + j) <= N.of_nat (length (blocks n0) + length theirs) \/ (length theirs < j)%nat.
+(* one delivery, any delivery sequence, every reachable node *)
+Lemma deliver_MInv n b now n' out amb : NInv n -> MInv n -> N.of_nat (length (blocks n)) < two64 ->
+  deliver cfg genesis_addr team_key n b now = (n', out, amb) -> MInv n'.
 Proof.
-  destruct (Nat.le_gt_cases j (length theirs)) as [Hj|Hj]; [left|right; exact Hj].
-  pose proof (firstn_length_le theirs Hj) as Hfl.
-  destruct (apply_ext_NInv (firstn j theirs) n0 HN0) as (H1 & H2).
-  - rewrite Hfl. lia.
-  - apply ndj_acc.
-  - split; [exact H1|]. rewrite Hfl in H2. split; [exact H2|lia].
+  intros HN HM Hlen H. unfold deliver in H.
+  destruct (prevalidate_block cfg team_key b now); try (injection H as <- _ _; exact HM).
+  destruct (add_block' n b) as [[n1 amb1]|c|c] eqn:E; try (injection H as <- _ _; exact HM).
+  injection H as <- _ _. eapply add_block_MInv; eassumption.
 Qed.
 
-(* the tip of our node while it accepts the branch: its old tip, or the last block accepted *)
-Lemma nd_top : forall j, (j <= length theirs)%nat ->
-  (top (ndj j) = top n0 /\ top_h (ndj j) = top_h n0) \/
-  (exists i b, j = S i /\ nth_error theirs i = Some b /\ top (ndj j) = b_hash b /\ top_h (ndj j) = b_height b).
+Lemma run_MInv ops : forall n, NInv n -> MInv n -> N.of_nat (length (blocks n) + length ops) <= two64 ->
+  MInv (run cfg genesis_addr team_key n ops).
 Proof.
-  induction j as [|j IH]; intros Hj; [left; split; reflexivity|].
-  destruct (nth_error theirs j) as [b|] eqn:Eb; [|apply nth_error_None in Eb; lia].
-  assert (Hf : firstn (S j) theirs = firstn j theirs ++ [b]).
-  { rewrite (firstn_succ_nth theirs dflt_block) by lia. f_equal. f_equal. apply nth_error_nth. exact Eb. }
-  pose proof (ndj_acc (S j)) as Ha. rewrite Hf in Ha. apply acc_chain_snoc in Ha. destruct Ha as (amb & Ha). rewrite <- Hf in Ha.
-  destruct (ndj_NInv j) as [(HNj & Hlj & _)|Hbad]; [|lia].
-  destruct (add_block_top (ndj j) b (ndj (S j)) amb HNj ltac:(lia) Ha) as (Hcases & Hmain).
-  destruct Hcases as [(T1 & T2)|(T1 & T2)].
-  - destruct (IH ltac:(lia)) as [(I1 & I2)|(i & c & -> & Hc & I1 & I2)].
-    + left. split; congruence.
-    + (* the previous block of the branch was the tip: this one extends the main chain *)
-      right. exists (S i), b. split; [reflexivity|]. split; [exact Eb|]. apply Hmain. rewrite I1. apply (Hlinked i c b Hc Eb).
-  - right. exists j, b. repeat split; assumption.
+  induction ops as [|[b now] ops IH]; intros n HN HM Hlen; cbn [run fold_left fst snd]; [exact HM|].
+  destruct (deliver cfg genesis_addr team_key n b now) as [[n1 out] amb] eqn:E. cbn [fst snd]. cbn [length] in Hlen.
+  destruct HN as (HC & HF & HH). apply IH.
+  - split; [|split].
+    + eapply deliver_CInv; [exact HC|exact HF| |exact E]. lia.
+    + eapply deliver_inv; eassumption.
+    + eapply deliver_HInv; [exact HC|exact HF|exact HH| |exact E]. lia.
+  - eapply deliver_MInv; [split; [exact HC|split; [exact HF|exact HH]]|exact HM| |exact E]. lia.
+  - apply deliver_len in E. lia.
 Qed.
 
 End Reach.
+
+Lemma reachable_MInv cfg genesis_addr team_key g n0 ops :
+  node0 cfg genesis_addr g = Ok n0 -> b_height g = 0 -> b_cd g = b_diff g -> N.of_nat (length ops) < two64 - 1 ->
+  let n := run cfg genesis_addr team_key n0 ops in NInv (b_hash g) n /\ MInv n.
+Proof.
+  intros H0 Hg0 Hcd Hlen n.
+  pose proof (reachable_invariants cfg genesis_addr team_key g n0 [] H0 Hg0 Hcd ltac:(cbn; unfold two64; lia)) as HN0. cbn in HN0.
+  split; [apply (reachable_invariants cfg genesis_addr team_key g n0 ops H0 Hg0 Hcd Hlen)|].
+  assert (Hl : length (blocks n0) = 1%nat /\ blocks n0 = [(b_hash g, g)]).
+  { unfold node0 in H0. apply apply_block_node_eq in H0. destruct H0 as (l & ->). split; reflexivity. }
+  destruct Hl as (Hl & Hbl).
+  apply (run_MInv cfg genesis_addr team_key (b_hash g) ops n0 HN0).
+  - intros h b Hb. unfold get_block in Hb. rewrite Hbl in Hb. unfold nget in Hb. cbn [aget] in Hb.
+    destruct (h =? b_hash g); [|discriminate]. injection Hb as <-. rewrite Hg0. lia.
+  - rewrite Hl. unfold two64 in *. lia.
+Qed.
 
 Section MainReach.
 Variable cfg : config.
@@ -136,6 +231,7 @@ Notation pbd := (parallel_blocks cfg).
 
 Hypothesis HCpeer : chain_structure gh peer.
 Hypothesis HN0 : NInv gh n0.
+Hypothesis HM0 : MInv n0.
 Hypothesis Hlen0 : N.of_nat (length (blocks n0) + length theirs) <= two64.
 Hypothesis Hsplit : main_chain peer = shared ++ theirs.
 Hypothesis Hshared_ne : shared <> [].
@@ -147,41 +243,28 @@ Hypothesis Hacc : acc_chain' n0 theirs.
 Hypothesis Hheavy : forall j, (j < length theirs)%nat -> top_cd (apply_ext' n0 (firstn j theirs)) < top_cd peer.
 Hypothesis Hbound : top_h peer + pbd + 2 < two64.
 Hypothesis Hpbd : 1 <= pbd.
-(* REACH' *)
-Hypothesis Hreach' : forall o, nth_error (shared ++ theirs) (N.to_nat (top_h n0 + pbd + 1)) = Some o -> top_cd n0 < b_cd o.
 
-Lemma reach_from_chains : forall j, (j < length theirs)%nat ->
-  let n := apply_ext' n0 (firstn j theirs) in
-  top_h n < top_h peer -> N.of_nat (length shared + j) <= top_h n + pbd + 1.
+(* while it accepts the peer's branch our node holds a block at the height just below the frontier *)
+Lemma held_from_chains : forall j, (j <= length theirs)%nat ->
+  N.of_nat (length shared + j) <= held_height (apply_ext' n0 (firstn j theirs)) + 1.
 Proof.
-  intros j Hj. cbn zeta. intros Hlt.
-  pose proof (main_chain_length gh peer HCpeer) as Hl. rewrite Hsplit, app_length in Hl.
-  assert (Hlinked : forall i b c, nth_error theirs i = Some b -> nth_error theirs (S i) = Some c -> prev_hash c = b_hash b).
-  { intros i b c Hb Hc. apply (main_chain_link gh peer HCpeer (length shared + i) b c); rewrite Hsplit.
-    - rewrite nth_error_app2 by lia. replace (length shared + i - length shared)%nat with i by lia. exact Hb.
-    - replace (S (length shared + i)) with (length shared + S i)%nat by lia.
-      rewrite nth_error_app2 by lia. replace (length shared + S i - length shared)%nat with (S i) by lia. exact Hc. }
-  assert (Hheights : forall i b, nth_error theirs i = Some b -> b_height b = N.of_nat (length shared + i)).
-  { intros i b Hb. apply (main_chain_height gh peer HCpeer). rewrite Hsplit. rewrite nth_error_app2 by lia.
-    replace (length shared + i - length shared)%nat with i by lia. exact Hb. }
-  destruct (nd_top cfg genesis_addr gh n0 theirs HN0 Hlen0 Hacc Hlinked j ltac:(lia)) as [(T1 & T2)|(i & b & -> & Hb & T1 & T2)].
-  2:{ rewrite T2, (Hheights i b Hb). lia. }
-  (* the tip is still our own: the block at our height + pbd + 1, if the frontier were above it, would be stored and heavier *)
-  rewrite T2 in *. destruct (N.le_gt_cases (N.of_nat (length shared + j)) (top_h n0 + pbd + 1)) as [Hok|Hbad]; [exact Hok|exfalso].
-  set (m := N.to_nat (top_h n0 + pbd + 1)).
-  destruct (nth_error (shared ++ theirs) m) as [o|] eqn:Eo; [|apply nth_error_None in Eo; rewrite app_length in Eo; lia].
-  pose proof (Hreach' o Eo) as Hcd.
-  destruct HN0 as (_ & HF0 & _). pose proof HF0 as ((t0 & Ht0 & Hcd0) & _ & Hmax0).
+  intros j Hj.
+  assert (Haccj : acc_chain' n0 (firstn j theirs)).
+  { pose proof Hacc as H. rewrite <- (firstn_skipn j theirs) in H. apply acc_chain_app in H. apply H. }
+  destruct (apply_ext_MInv cfg genesis_addr gh (firstn j theirs) n0 HN0 HM0) as (_ & HMj); [|exact Haccj|].
+  { pose proof (firstn_le_length j theirs). lia. }
+  (* the block of the peer's chain at height (length shared + j - 1) is stored *)
+  assert (Hpos : (0 < length shared)%nat) by (destruct shared; [congruence|cbn; lia]).
+  set (i := (length shared + j - 1)%nat).
+  destruct (nth_error (shared ++ theirs) i) as [o|] eqn:Eo; [|apply nth_error_None in Eo; rewrite app_length in Eo; lia].
+  assert (Hho : b_height o = N.of_nat i) by (apply (main_chain_height gh peer HCpeer); rewrite Hsplit; exact Eo).
   assert (Hst : get_block (apply_ext' n0 (firstn j theirs)) (b_hash o) = Some o).
-  { destruct (apply_ext_store cfg genesis_addr _ n0 (ndj_acc cfg genesis_addr n0 theirs Hacc j)) as (K1 & K2 & _).
-    destruct (Nat.lt_ge_cases m (length shared)) as [Hs|Ht].
+  { destruct (apply_ext_store cfg genesis_addr _ n0 Haccj) as (K1 & K2 & _).
+    destruct (Nat.lt_ge_cases i (length shared)) as [Hs|Ht].
     - rewrite nth_error_app1 in Eo by exact Hs. apply K1. apply Hshared. eapply nth_error_In. exact Eo.
     - rewrite nth_error_app2 in Eo by exact Ht. apply K2. rewrite <- (nth_error_nth _ _ dflt_block Eo).
-      apply nth_in_firstn; unfold m in *; lia. }
-  pose proof (apply_ext_FInv cfg genesis_addr (firstn j theirs) n0 HF0) as ((t & Ht & Htcd) & _ & Hmax).
-  pose proof (Hmax _ _ Hst) as Hle.
-  destruct (apply_ext_store cfg genesis_addr _ n0 (ndj_acc cfg genesis_addr n0 theirs Hacc j)) as (K1 & _ & _).
-  rewrite T1 in Ht. rewrite (K1 _ _ Ht0) in Ht. injection Ht as <-. lia.
+      apply nth_in_firstn; unfold i in *; lia. }
+  pose proof (HMj _ _ Hst) as Hle. unfold i in *. lia.
 Qed.
 
 Theorem sync_fork_catches_up_chains s :
@@ -202,7 +285,7 @@ Theorem sync_fork_catches_up_chains s :
        top (sy_node (fst (sim cfg genesis_addr team_key fuel peer s [] now))) = top peer).
 Proof.
   apply (sync_fork_catches_up cfg genesis_addr team_key gh peer n0 shared theirs HCpeer (proj1 (proj2 HN0)) Hsplit Hshared_ne
-           Htheirs_ne Hnz Hshared Hnew Hacc Hheavy Hbound Hpbd reach_from_chains).
+           Htheirs_ne Hnz Hshared Hnew Hacc Hheavy Hbound Hpbd held_from_chains).
 Qed.
 
 End MainReach.
